@@ -103,10 +103,19 @@ def wrap(body):
         real = ix.t
         if i % 3 == 2:          # every third step, the queries of the hook pass text instead of bytes
             ix.t = TextArgs(real)
+        # every other step the plain requests run with every loop iteration a yield point (they drain their
+        # own generator): the yield paths, which small data never reach at the built-in thresholds, are taken
+        ay = None
+        if i % 2 == 1:
+            from coop import always_yield
+            ay = always_yield()
+            ay.__enter__()
         try:
             q = body(ix, driver, i, op, res)
         finally:
             ix.t = real
+            if ay is not None:
+                ay.__exit__(None, None, None)
         q["wrote"] = len(impl.WRITE_LOG)
         del impl.WRITE_LOG[:]
         return q
